@@ -36,12 +36,12 @@ def build(s: ASchema, **dbkw):
     pending_refs = {}
     for t in s.tables:
         tab = Table(t.name, schema=t.schema, alias=t.alias, note=t.note, header_color=t.header_color,
-                    comment=t.comment, properties=dict(t.props) if t.props else None)
+                    comment=t.comment, **({'properties': dict(t.props)} if t.props else {}))      # no properties: the argument is left out
         for c in t.columns:
             ty = enums[(c.type[1], c.type[2])] if c.type[0] == 'enum' else c.type[1]
             col = Column(c.name, ty, unique=c.unique, not_null=c.not_null, pk=c.pk, autoinc=c.autoinc,
                          default=build_default(c.default), note=c.note, comment=c.comment,
-                         properties=dict(c.props) if c.props else None)
+                         **({'properties': dict(c.props)} if c.props else {}))
             tab.add_column(col)
         for ix in t.indexes:
             subjects = [tab[v] if k == 'col' else Expression(v) for k, v in ix.subjects]
